@@ -22,6 +22,8 @@ def run(rep, tier, seed, replay=None):
             cm = 1 if (c["same"] and (len(c["subsets"]) >= 2 or rng.random() < 0.7)) else 0
             if not c["same"] and len(c["subsets"]) == 1 and rng.random() < 0.3:
                 cm = 1
+            if any(203000 < d < 203255 for d in c["tmpl"]) and any(204000 < d < 204256 for d in c["tmpl"]):
+                cm = 0      # 2 03 operands inside a 2 04 scope: generated for uncompressed messages only (see DESIGN section 5)
             fr = dict(s2=(None if rng.random() < 0.5 else bytes(rng.randrange(256) for _ in range(rng.choice([0, 1, 2, 3, 8, 33])))),
                       header=(b"" if rng.random() < 0.6 else bytes(rng.choice(b"\r\n\x01 ABCxyz019") for _ in range(rng.randint(1, 30)))),
                       s4_extra_pad=rng.choice([0, 0, 0, 1, 2, 5]),
